@@ -10,6 +10,11 @@ var arithOps = map[string]string{"__add": "+", "__sub": "-", "__mul": "*", "__di
 // handler builds `function(a, b) emit(tag, a, b) return <ret> end`; operands are
 // emitted through id() so that numbers/strings/tables all render canonically.
 func (g *Gen) handler(tag string, nparams int, ret Expr) Expr {
+	if nparams >= 2 && g.R.Intn(6) == 0 {
+		// a host (Go) function as handler: it records and returns its arguments
+		g.cover("handler:host")
+		return N("hosth")
+	}
 	params := []string{"a", "b", "c"}[:nparams]
 	args := []Expr{Str(tag)}
 	for _, p := range params {
@@ -103,7 +108,10 @@ func (g *Gen) MetaProgram() *Chunk {
 			}
 			tab.Items = append(tab.Items, TItem{Kind: TName, Name: "__newindex", Val: h})
 		}
-		if g.R.Intn(3) == 0 {
+		if g.R.Intn(8) == 0 {
+			tab.Items = append(tab.Items, TItem{Kind: TName, Name: "__call", Val: N([]string{"hosth", "rawget", "rawequal"}[g.R.Intn(3)])})
+			g.cover("handler:host-call")
+		} else if g.R.Intn(3) == 0 {
 			tab.Items = append(tab.Items, TItem{Kind: TName, Name: "__call", Val: &EFunc{F: &Func{Params: []string{"self"}, Vararg: true, Body: Blk(
 				CallSN("emit", Str(tag("__call")), N("self"), CallN("select", Str("#"), &EVararg{}), &EVararg{}),
 				Return(g.handlerRet(), &EVararg{}))}}})
@@ -126,7 +134,9 @@ func (g *Gen) MetaProgram() *Chunk {
 			g.cover("obj:userdata")
 		} else {
 			tabObjs = append(tabObjs, obj)
-			mk = CallN("setmetatable", &ETable{Items: []TItem{{Kind: TName, Name: "k1", Val: Num(float64(10 + i))}}}, N(mt))
+			mk = CallN("setmetatable", &ETable{Items: []TItem{{Kind: TName, Name: "k1", Val: Num(float64(10 + i))},
+				{Kind: TName, Name: "kf", Val: &EFalse{}}, {Kind: TName, Name: "k0", Val: Num(0)}, {Kind: TName, Name: "ke", Val: Str("")},
+				{Kind: TPos, Val: &EFalse{}}, {Kind: TKey, Key: &ETrue{}, Val: &EFalse{}}}}, N(mt))
 			g.cover("obj:table")
 		}
 		b.Stmts = append(b.Stmts, Local1(obj, mk), CallSN("emit", Str("obj"), N(obj)))
@@ -167,10 +177,15 @@ func (g *Gen) MetaProgram() *Chunk {
 		}
 		return e
 	}
+	ks, kf := g.fresh("ks"), g.fresh("kf")
+	b.Stmts = append(b.Stmts, Local1(ks, Str([]string{"k1", "kf", "newkey2"}[g.R.Intn(3)])), Local1(kf, &EFalse{}))
 	nops := 8 + g.R.Intn(25)
 	for i := 0; i < nops; i++ {
 		var e Expr
-		k := g.R.Intn(16)
+		k := g.R.Intn(19)
+		if k == 15 && g.R.Intn(2) == 0 {
+			k = 8
+		}
 		g.cover("metaop:%d", k)
 		switch k {
 		case 0, 1, 2:
@@ -185,11 +200,80 @@ func (g *Gen) MetaProgram() *Chunk {
 		case 7:
 			e = Idx(operand(), Str([]string{"k1", "k2", "missing"}[g.R.Intn(3)]))
 		case 8:
-			// assignment to present / absent keys
+			// assignment to present / absent keys: the key as a constant, in a
+			// local, a number or a boolean; present values that are false, 0 or "";
+			// through the statement or through rawset
 			o := N(objs[g.R.Intn(len(objs))])
-			key := []string{"k1", "newkey", "k2"}[g.R.Intn(3)]
-			b.Stmts = append(b.Stmts, CallSN("emit", Str("set"), &EParen{X: CallN("pcall", Fn(nil, false, Blk(Assign1(Idx(o, Str(key)), Num(float64(i))))))}),
-				CallSN("emit", Str("rawget"), &EParen{X: CallN("pcall", N("rawget"), o, Str(key))}))
+			var key Expr
+			switch g.R.Intn(8) {
+			case 0, 1:
+				key = Str([]string{"k1", "newkey", "k2", "kf", "k0", "ke"}[g.R.Intn(6)])
+			case 2:
+				key = Str("kf")
+			case 3:
+				key = N(ks)
+			case 4:
+				key = Num(float64(1 + g.R.Intn(2)))
+			case 5:
+				key = &ETrue{}
+			case 6:
+				key = N(kf)
+			default:
+				key = o
+			}
+			var val Expr
+			switch g.R.Intn(5) {
+			case 0:
+				val = &EFalse{}
+			case 1:
+				val = &ENil{}
+			case 2:
+				val = Str("s")
+			default:
+				val = Num(float64(i))
+			}
+			set := Assign1(Idx(o, key), val)
+			how := "set"
+			if g.R.Intn(5) == 0 {
+				how = "rawset"
+				b.Stmts = append(b.Stmts, CallSN("emit", Str(how), &EParen{X: CallN("pcall", N("rawset"), o, key, val)}))
+			} else {
+				b.Stmts = append(b.Stmts, CallSN("emit", Str(how), &EParen{X: CallN("pcall", Fn(nil, false, Blk(set)))}))
+			}
+			g.cover("assign:%s", how)
+			b.Stmts = append(b.Stmts, CallSN("emit", Str("rawget"), CallN("pcall", N("rawget"), o, key)))
+			continue
+		case 16:
+			// indexing with every key form, and the method-call form (OP_SELF)
+			o := operand()
+			switch g.R.Intn(5) {
+			case 0:
+				e = Idx(o, N(ks))
+			case 1:
+				e = Idx(o, Num(float64(1+g.R.Intn(2))))
+			case 2:
+				e = Idx(o, N(kf))
+			case 3:
+				e = &EMethod{Obj: o, Name: []string{"k1", "missing", "kf"}[g.R.Intn(3)], Args: []Expr{Num(1)}}
+			default:
+				e = Idx(o, o)
+			}
+		case 17:
+			// __call as the iterator of a generic for
+			mtI, it := g.fresh("mti"), g.fresh("it")
+			lim := 1 + g.R.Intn(3)
+			var mkIt Expr = CallN("setmetatable", &ETable{}, N(mtI))
+			if g.R.Intn(3) == 0 {
+				mkIt = CallN("newud", N(mtI))
+			}
+			va, vb := g.fresh("a"), g.fresh("b")
+			b.Stmts = append(b.Stmts,
+				Local1(mtI, &ETable{Items: []TItem{{Kind: TName, Name: "__call", Val: Fn([]string{"self", "s", "c"}, false, Blk(
+					CallSN("emit", Str("iter"), N("self"), N("s"), N("c")),
+					&SIf{Sites: make([]Site, 1), Conds: []Expr{Bin("<", N("c"), Num(float64(lim)))}, Blocks: []*Block{Blk(Return(Bin("+", N("c"), Num(1)), Str("x")))}}))}}}),
+				Local1(it, mkIt),
+				&SGenFor{Names: []string{va, vb}, Exprs: []Expr{N(it), Str("st"), Num(0)}, Body: Blk(CallSN("emit", Str("body"), N(va), N(vb)))})
+			g.cover("forin:__call")
 			continue
 		case 9:
 			o := operand()
@@ -233,6 +317,22 @@ func (g *Gen) MetaProgram() *Chunk {
 				Assign1(N(ch), CallN("setmetatable", &ETable{}, &ETable{Items: []TItem{{Kind: TName, Name: "__index", Val: N(ch)}}})))},
 			CallSN("emit", Str("chain"), Num(float64(depth)), &EParen{X: CallN("pcall", Fn(nil, false, Blk(Return(Dot(N(ch), "deep")))))}))
 		g.cover("chain:%d", depth)
+	}
+	// __newindex chain through tables to the loop limit
+	if g.R.Intn(4) == 0 {
+		depth := []int{2, 5, 98, 99, 100, 101, 150}[g.R.Intn(7)]
+		ch, bottom := g.fresh("nchain"), g.fresh("bottom")
+		iv := g.fresh("i")
+		b.Stmts = append(b.Stmts,
+			Local1(bottom, &ETable{Items: []TItem{{Kind: TName, Name: "present", Val: &EFalse{}}}}),
+			Local1(ch, N(bottom)),
+			&SNumFor{Var: iv, Start: Num(1), Limit: Num(float64(depth)), Body: Blk(
+				Assign1(N(ch), CallN("setmetatable", &ETable{}, &ETable{Items: []TItem{{Kind: TName, Name: "__newindex", Val: N(ch)}}})))},
+			CallSN("emit", Str("nchain"), Num(float64(depth)), &EParen{X: CallN("pcall", Fn(nil, false, Blk(Assign1(Dot(N(ch), "deepkey"), Num(7)))))},
+				CallN("rawget", N(bottom), Str("deepkey")), CallN("rawget", N(ch), Str("deepkey"))),
+			CallSN("emit", Str("nchain2"), &EParen{X: CallN("pcall", Fn(nil, false, Blk(Assign1(Dot(N(ch), "present"), Num(8)))))},
+				CallN("rawget", N(bottom), Str("present"))))
+		g.cover("nchain:%d", depth)
 	}
 	return &Chunk{Body: b}
 }
